@@ -288,7 +288,7 @@ func TestC10_Hostile(t *testing.T) {
 func TestC10_AllTruncations(t *testing.T) {
 	ev := evid.For("C10", "AllTruncations")
 	rapid.Check(t, func(rt *rapid.T) {
-		e := gen.GenEvent(rt, gen.EventOpts{Types: gen.TypeOpts{MaxDepth: 3, MaxTuple: 3, MaxFixed: 11, DynBias: true}, MaxInputs: 3, NeedSelected: true, SelProb: 60})
+		e := gen.GenEvent(rt, gen.EventOpts{Types: gen.TypeOpts{MaxDepth: 3, MaxTuple: 3, MaxFixed: 11, DynBias: true}, MaxInputs: rapid.IntRange(3, 5).Draw(rt, "maxinputs"), NeedSelected: true, SelProb: 60})
 		de := digEvent(e)
 		res := dig.NewResult(de.ABIType())
 		vals := gen.GenEventValues(rt, e, gen.ValueOpts{MaxDynLen: 2, MaxBytes: 40})
@@ -301,6 +301,23 @@ func TestC10_AllTruncations(t *testing.T) {
 				rt.Fatalf("VERIF-VIOLATION property=C10 %s\n truncated at %d of %d\n event=%s\n data=%x", v, cut, len(valid), eventJSON(e), valid[:cut])
 			}
 			ev.Case(len(marks) > 0 && cut < len(valid), fmt.Sprintf("%s|%x|cut%d", e.Signature(), valid, cut))
+		}
+		// zero-filled data of every length (offsets and lengths of 0 are all "in bounds"), and the
+		// valid encoding with its tail zeroed from every word boundary on
+		for n := 0; n <= min(len(valid)+64, 1564); n++ {
+			if v := c10Check(e, res, make([]byte, n), false); v != "" {
+				rt.Fatalf("VERIF-VIOLATION property=C10 %s\n %d zero bytes\n event=%s", v, n, eventJSON(e))
+			}
+			ev.Case(len(marks) > 0, fmt.Sprintf("%s|zeros%d", e.Signature(), n))
+		}
+		for cut := 0; cut < len(valid); cut += 32 {
+			data := append(append([]byte{}, valid[:cut]...), make([]byte, len(valid)-cut)...)
+			for trim := 0; trim <= 64 && trim <= len(data); trim += 8 {
+				if v := c10Check(e, res, data[:len(data)-trim], false); v != "" {
+					rt.Fatalf("VERIF-VIOLATION property=C10 %s\n tail zeroed from %d, %d bytes cut\n event=%s\n data=%x", v, cut, trim, eventJSON(e), data[:len(data)-trim])
+				}
+			}
+			ev.Case(len(marks) > 0, fmt.Sprintf("%s|%x|zerotail%d", e.Signature(), valid, cut))
 		}
 		ws := boundaryWords(len(valid))
 		for _, pos := range marks {
@@ -343,6 +360,11 @@ var c10FuzzEvents = func() []*refmodel.Event {
 		mk(tup(sel(arr(-1, u()), "a"), sel(st(), "b")), sel(u(), "c")),
 		mk(by(), arr(-1, st()), sel(arr(12, u()), "a")),
 		mk(arr(-1, tup(u(), arr(-1, by()), sel(st(), "a")))),
+		// dynamic heads, then a fixed-size composite nobody selected, then a selected static word
+		mk(st(), by(), arr(2, u()), sel(u(), "a")),
+		mk(sel(st(), "s"), arr(-1, u()), tup(u(), u(), u()), sel(u(), "a")),
+		mk(by(), st(), by(), arr(3, tup(u(), u())), sel(u(), "a"), sel(by(), "b")),
+		mk(tup(st(), by(), arr(2, u()), sel(u(), "a")), sel(u(), "b")),
 	}
 }()
 
@@ -383,6 +405,40 @@ func FuzzC10(f *testing.F) {
 			t.Fatalf("VERIF-VIOLATION property=C10 %s\n event=%s\n data=%x", v, eventJSON(d.e), b[1:])
 		}
 	})
+}
+
+// TestC10_ZeroFill: every declaration of the fixed table x zero-filled data of every length up to
+// 1 KiB, and the same with one word set to each boundary value (exhaustive over the table).
+func TestC10_ZeroFill(t *testing.T) {
+	ev := evid.For("C10", "ZeroFill")
+	si, sn := shard()
+	for ei, e := range c10FuzzEvents {
+		if ei%sn != si {
+			continue
+		}
+		res := dig.NewResult(digEvent(e).ABIType())
+		for n := 0; n <= 1024; n++ {
+			data := make([]byte, n)
+			if v := c10Check(e, res, data, false); v != "" {
+				t.Fatalf("VERIF-VIOLATION property=C10 %s\n %d zero bytes\n event=%s", v, n, eventJSON(e))
+			}
+			ev.Case(true, fmt.Sprintf("%d|zeros%d", ei, n), "zeros")
+			if n%32 == 0 && n >= 32 && n <= 384 {
+				for pos := 0; pos+32 <= n; pos += 32 {
+					for _, w := range [][]byte{be256(0, 32, 0), be256(0, 64, 0), be256(0, uint64(n), 0), be256(0, uint64(n-32), 0), be256(0, 1, 0)} {
+						d2 := make([]byte, n)
+						copy(d2[pos:], w)
+						if v := c10Check(e, res, d2, false); v != "" {
+							t.Fatalf("VERIF-VIOLATION property=C10 %s\n %d bytes, word at %d = %x\n event=%s", v, n, pos, w, eventJSON(e))
+						}
+						ev.Case(true, fmt.Sprintf("%d|%d|%d|%x", ei, n, pos, w), "one-word")
+					}
+				}
+			}
+		}
+		ev.Sample(3, map[string]any{"signature": e.Signature(), "lengths": "0..1024"})
+	}
+	ev.Set("exhaustive_over_fixed_table", true)
 }
 
 func TestC10_KnownFindings(t *testing.T) {
